@@ -584,6 +584,8 @@ func c19(out *rec.Out, rng *rec.Rng, tier string, stats map[string]int) {
 		switch {
 		case presetN%4 == 2:
 			return fmt.Sprintf("P%d_di", presetN-1)
+		case presetN%8 == 0:
+			return fmt.Sprintf("P%d:c", presetN-1) // … or a colon, as in a qualified name: an id is an id
 		case presetN%4 == 0:
 			return fmt.Sprintf("P%d_1", presetN-1)
 		}
